@@ -335,7 +335,7 @@ def solve_fingerprint(cfg, exname):
     try:
         conf = EVQEMinimumEigensolverConfiguration(
             configured_estimator=ConfiguredEstimatorV2(estimator=fakes.ExactEstimator(), precision=None) if cfg["estimator"] else None,
-            configured_sampler=ConfiguredSamplerV2(sampler=fakes.ExactSampler(), shots=256), pass_manager=None,
+            configured_sampler=ConfiguredSamplerV2(sampler=fakes.ExactSampler(), shots=cfg.get("shots", 256)), pass_manager=None,
             optimizer=SPSA(maxiter=cfg["maxiter"], learning_rate=0.1, perturbation=0.1) if cfg.get("optimizer") == "SPSA" else COBYLA(maxiter=cfg["maxiter"]),
             optimizer_n_circuit_evaluations=None, max_generations=cfg["max_gen"], max_circuit_evaluations=None, termination_criterion=None, random_seed=cfg["seed"],
             population_size=cfg["population"], speciation_genetic_distance_threshold=cfg["threshold"], selection_alpha_penalty=0.1, selection_beta_penalty=0.05,
@@ -371,6 +371,26 @@ def run_sub(snippet, hashseed):
         if line.startswith("FP="):
             return line[3:]
     raise RuntimeError("sub-process failed: " + p.stderr[-400:])
+
+
+def tie_prone_solve_case(ctx, rng):
+    """coarse objective values (4-shot sampler, integer-valued diagonal operator): different individuals often tie exactly for a generation's best
+    value; which of them is recorded as best must not depend on the order in which evaluation futures happen to be consumed (object addresses).
+    Several repetitions on the stock one-worker pool, plus the eager and the deferred pool."""
+    nq = 2
+    cfg = {"paulis": ["ZI", "IZ", "ZZ"], "coeffs": [1.0, 1.0, rng.choice([1.0, 2.0])], "estimator": False, "maxiter": 2, "max_gen": rng.randint(4, 5), "seed": rng.randrange(1, 2**31),
+           "population": 8, "threshold": 2, "p_param": 0.3, "p_topo": 0.5, "p_rem": 0.1, "tournament": True, "mutex": False, "optimizer": "COBYLA", "shots": 4}
+    inp = {"kind": "solve", "tie_prone": True, **cfg}
+    ctx.case(inp, nontrivial=True, tags=["solve", "tie-prone (4 shots)"])
+    ref = solve_fingerprint(cfg, "stock")
+    hist = json.loads(ref)["history"]
+    ctx.dist["tie-prone: generations with an exact tie for the best value"] += sum(1 for h in hist if h[1].count(h[3]) > 1)
+    for exname in ("stock", "stock", "stock", "eager", "deferred"):
+        fp = solve_fingerprint(cfg, exname)
+        if fp != ref:
+            ctx.violate(f"two identically seeded single-worker solves from fresh solvers differ (coarse objective values with exact ties; schedule: stock pool vs {exname})",
+                        inp, {"fields": diff_fields(ref, fp)}, key="solve:ties")
+            return
 
 
 def solve_case(ctx, rng, subprocess_seeds, optimizer=None, seed=None):
@@ -701,6 +721,10 @@ def run(ctx):
     hs = [0, 1, 4242] if ctx.thorough() else [0, 4242]
     constructors_case(ctx, rng, hs)
     history_case(ctx, rng, hs)
+    for i in range(ctx.n(2, 12)):
+        if ctx.out_of_time():
+            break
+        tie_prone_solve_case(ctx, rng)
     for i in range(ctx.n(3, 40)):
         if ctx.out_of_time():
             break
